@@ -125,14 +125,8 @@ def _sources_coercible(ck, repo):
     ck.ob("to_graphql_error keeps the given message (else the exception's text) and the original error",
           isinstance(call, ast.Call) and _at(call, 0) == f"{t.positional_params[1]} or str({t.positional_params[0]})" and _at(call, None, "original_error") == t.positional_params[0], t,
           t.node, construct="source:to_graphql_error:operands")
-    p = repo.func("tartiflette/execution/collect.py", "parse_and_validate_query")
-    hs = FuncView(p).handlers()
-    for h in hs:
-        ht = unparse(h.type) if h.type else "bare"
-        ret = [s for s in h.body if isinstance(s, ast.Return)]
-        el = ret[0].value.elts[1].elts[0] if ret and isinstance(ret[0].value, ast.Tuple) and isinstance(ret[0].value.elts[1], ast.List) and ret[0].value.elts[1].elts else None
-        ok = el is not None and ((ht == "TartifletteError" and unparse(el) == h.name) or (callee_last(el) == "to_graphql_error" if isinstance(el, ast.Call) else False))
-        ck.ob(f"parse_and_validate_query: `except {ht}` yields a coercible error", ok, p, h, construct=f"source:parser:{ht}")
+    from .. import parsegate
+    parsegate.check(ck, repo, tag="source:parser")
     ic = repo.func("tartiflette/utils/errors.py", "is_coercible_exception")
     r = FuncView(ic).returns()
     ck.ob("is_coercible_exception: has a callable coerce_value", len(r) == 1 and unparse(r[0].value) == f"hasattr({ic.positional_params[0]}, 'coerce_value') and callable({ic.positional_params[0]}.coerce_value)",
